@@ -152,6 +152,7 @@ type c10 struct {
 	epochN map[string]int // role|epoch -> duties planned (attester / aggregator: <= 2 per epoch)
 	maxRnd specqbft.Round
 	rsa    []keys.OperatorPrivateKey // operator keys of the signed-envelope layer
+	tooHigh map[string]specqbft.Round
 }
 
 var (
@@ -201,7 +202,7 @@ func (c *c10) rel() time.Duration { return time.Since(c.start0) }
 
 func newC10(d *sim.D) *c10 {
 	n := int(d.Cfg.Get("n", 4))
-	c := &c10{d: d, n: n, mode: int(d.Cfg.Get("mode", 0)), tgen: map[tkey]int{}, epochN: map[string]int{}}
+	c := &c10{d: d, n: n, mode: int(d.Cfg.Get("mode", 0)), tgen: map[tkey]int{}, epochN: map[string]int{}, tooHigh: map[string]specqbft.Round{}}
 	bn := beacon.NewNetwork(beaconNet)
 	c.w = newWorld(d, "C10", memDB, func(w *world) {
 		w.mkTimer = func(op *operator, role spectypes.BeaconRole) roundtimer.Timer {
@@ -423,8 +424,15 @@ func c10Rule(text string) string {
 
 // ruleDetail: for the per-round message limit the signature also names the committee size and the
 // number of messages after which the honest message was refused (a different limit is a different finding).
-func (c *c10) ruleDetail(text string) string {
+func (c *c10) ruleDetail(text string, g *gmsg) string {
 	r := c10Rule(text)
+	if r == "round is too high for this role" { // names the role and the first round that was refused in this run
+		k := roleName(g.role)
+		if c.tooHigh[k] == 0 {
+			c.tooHigh[k] = g.round
+		}
+		return fmt.Sprintf("%s/%s,first-refused-round=%d", r, k, c.tooHigh[k])
+	}
 	if r == "too many messages of same type per round" {
 		i := strings.Index(text, ", got ")
 		if i >= 0 {
@@ -475,13 +483,13 @@ func (c *c10) deliver(e *c10ev) {
 			c.d.Finding("honest-message-rejected", "in-flight-across-fork-activation", "#%d %s from operator %d was sent before the signed-envelope fork activated (unsigned, as Broadcast prescribes at that instant) and validated at t=%v, after the activation, by %s: %s (%s)",
 				g.id, g.desc, g.from+1, c.rel(), who, verdict, text)
 		case verdict == "reject":
-			c.d.Finding("honest-message-rejected", cls+"/"+c.ruleDetail(text), "mode %d: #%d %s from correct operator %d, validated by correct %s at t=%v (slot start %+v), was REJECTED: %s",
+			c.d.Finding("honest-message-rejected", cls+"/"+c.ruleDetail(text, g), "mode %d: #%d %s from correct operator %d, validated by correct %s at t=%v (slot start %+v), was REJECTED: %s",
 				c.mode, g.id, g.desc, g.from+1, who, c.rel(), time.Since(c.netCfg.Beacon.GetSlotStartTime(phase0.Slot(g.height))), text)
 		case verdict == "accept":
 		default:
 			c.d.Probe("not-accepted: " + cls + "/" + c10Rule(text))
 			if c.mode == 0 {
-				c.d.Finding("honest-message-not-accepted-in-fault-free-run", cls+"/"+c.ruleDetail(text), "fault-free in-order run: #%d %s from operator %d validated by %s at t=%v: %s (%s)",
+				c.d.Finding("honest-message-not-accepted-in-fault-free-run", cls+"/"+c.ruleDetail(text, g), "fault-free in-order run: #%d %s from operator %d validated by %s at t=%v: %s (%s)",
 					g.id, g.desc, g.from+1, who, c.rel(), verdict, text)
 			}
 		}
